@@ -31,9 +31,14 @@ theorem C20_valid_print_style (c : Cfg) (a : Arg) :
       · rintro ⟨rfl, h⟩; exact ⟨h, rfl⟩
       · rintro ⟨h, rfl⟩; exact ⟨rfl, h⟩
     case str s =>
-      rw [enumArg_str]
-      simp [DocEnum, Gen.setterStrings, Gen.setterConv, Gen.members]
-      rintro (rfl | rfl | rfl) <;> simp [valueIdx]
+      rw [enumArg_str, valueIdx_isSome_iff]
+      have hsub : ∀ s ∈ (Gen.members .printStyle).map Prod.snd, s ∈ Gen.setterStrings .printStyle := by
+        decide
+      have hconv : Gen.setterConv .printStyle = .printStyle := rfl
+      rw [hconv]
+      simp only [DocEnum, reduceCtorEq, and_false, exists_false, false_or, Arg.scalar.injEq,
+        Scalar.str.injEq, exists_eq_right']
+      exact ⟨fun h => h.2, fun h => ⟨hsub s h, h⟩⟩
     all_goals simp [enumArg, DocEnum]
   · simp [enumArg, DocEnum]
 
@@ -52,9 +57,14 @@ theorem C20_valid_unit_style (c : Cfg) (a : Arg) :
       · rintro ⟨rfl, h⟩; exact ⟨h, rfl⟩
       · rintro ⟨h, rfl⟩; exact ⟨rfl, h⟩
     case str s =>
-      rw [enumArg_str]
-      simp [DocEnum, Gen.setterStrings, Gen.setterConv, Gen.members]
-      rintro (rfl | rfl) <;> simp [valueIdx]
+      rw [enumArg_str, valueIdx_isSome_iff]
+      have hsub : ∀ s ∈ (Gen.members .unitStyle).map Prod.snd, s ∈ Gen.setterStrings .unitStyle := by
+        decide
+      have hconv : Gen.setterConv .unitStyle = .unitStyle := rfl
+      rw [hconv]
+      simp only [DocEnum, reduceCtorEq, and_false, exists_false, false_or, Arg.scalar.injEq,
+        Scalar.str.injEq, exists_eq_right']
+      exact ⟨fun h => h.2, fun h => ⟨hsub s h, h⟩⟩
     all_goals simp [enumArg, DocEnum]
   · simp [enumArg, DocEnum]
 
@@ -76,11 +86,14 @@ theorem C20_valid_error_method (c : Cfg) (a : Arg) (hA : NotAuto a) :
       · rintro ⟨h, rfl⟩; exact ⟨rfl, h⟩
     case str s =>
       have hs : s ≠ "auto" := by intro h; apply hA2; rw [h]
-      rw [enumArg_str]
-      simp [DocEnum, Gen.setterStrings, Gen.setterConv, Gen.members]
-      constructor
-      · rintro ⟨h1, -⟩; rcases h1 with rfl | rfl <;> simp
-      · rintro (rfl | rfl | rfl) <;> simp_all [valueIdx]
+      rw [enumArg_str, valueIdx_isSome_iff]
+      have hsub : ∀ s ∈ (Gen.members .errorMethod).map Prod.snd, s ≠ "auto" →
+          s ∈ Gen.setterStrings .errorMethod := by decide
+      have hconv : Gen.setterConv .errorMethod = .errorMethod := rfl
+      rw [hconv]
+      simp only [DocEnum, reduceCtorEq, and_false, exists_false, false_or, Arg.scalar.injEq,
+        Scalar.str.injEq, exists_eq_right']
+      exact ⟨fun h => h.2, fun h => ⟨hsub s h hs, h⟩⟩
     all_goals simp [enumArg, DocEnum]
   · simp [enumArg, DocEnum]
 
